@@ -77,8 +77,13 @@ DenseMatrix spe_embedding(RandomAccessIterator begin, RandomAccessIterator end, 
     IndexIterator ind2;
     // Helper used in local strategy
     Indices ind1Neighbors;
+    // With local strategy, the second set of indices is kept apart from the shuffled ones
+    Indices ind2Neighbors;
     if (!global_strategy)
+    {
         ind1Neighbors.resize(static_cast<size_t>(k) * nupdates);
+        ind2Neighbors.resize(nupdates);
+    }
 
     for (IndexType i = 0; i < max_iter; ++i)
     {
@@ -107,11 +112,13 @@ DenseMatrix spe_embedding(RandomAccessIterator begin, RandomAccessIterator end, 
             for (int j = 0; j < nupdates; ++j)
             {
                 IndexType r = static_cast<IndexType>(floor(tapkee::uniform_random() * (k - 1)) + k * j);
-                indices[nupdates + j] = ind1Neighbors[r];
+                ind2Neighbors[j] = ind1Neighbors[r];
             }
         }
 
         // Compute distances between the selected points in the embedded space
+        ind1 = indices.begin();
+        ind2 = global_strategy ? indices.begin() + nupdates : ind2Neighbors.begin();
         for (int j = 0; j < nupdates; ++j)
         {
             // FIXME it seems that here Euclidean distance is forced
@@ -126,7 +133,7 @@ DenseMatrix spe_embedding(RandomAccessIterator begin, RandomAccessIterator end, 
             Rt.fill(1);
 
         ind1 = indices.begin();
-        ind2 = indices.begin() + nupdates;
+        ind2 = global_strategy ? indices.begin() + nupdates : ind2Neighbors.begin();
         for (int j = 0; j < nupdates; ++j)
             Rt[j] *= callback.distance(*(begin + *ind1++), *(begin + *ind2++));
 
@@ -137,7 +144,7 @@ DenseMatrix spe_embedding(RandomAccessIterator begin, RandomAccessIterator end, 
         scale = (Rt - D).cwiseQuotient(D);
 
         ind1 = indices.begin();
-        ind2 = indices.begin() + nupdates;
+        ind2 = global_strategy ? indices.begin() + nupdates : ind2Neighbors.begin();
         // Difference matrix
         for (int j = 0; j < nupdates; ++j)
         {
@@ -147,7 +154,7 @@ DenseMatrix spe_embedding(RandomAccessIterator begin, RandomAccessIterator end, 
         }
 
         ind1 = indices.begin();
-        ind2 = indices.begin() + nupdates;
+        ind2 = global_strategy ? indices.begin() + nupdates : ind2Neighbors.begin();
         // Update the location of the vectors in the embedded space
         for (int j = 0; j < nupdates; ++j)
         {
